@@ -3,7 +3,7 @@ import math
 
 from .. import gen
 from ..rateprobe import run_case, common_buckets, exc_detail
-from ..util import KIND, EPS
+from ..util import KIND, EPS, MODEL_NAMES
 
 PROPERTY = "C07"
 PYTEST_PREFIX = "C07/"
@@ -24,6 +24,15 @@ def floors(tier):
 
 
 def generate(ctx):
+    idx = 0
+    for rep in range(1 if ctx.tier == "quick" else 12):
+        for m_ in MODEL_NAMES:
+            for k_ in (5, 6, 7, 8):
+                idx += 1
+                if idx % ctx.nshards == ctx.shard:
+                    # every tie-group composition of k_ teams x systematic team-size patterns
+                    for case, meta in gen.shape_cases(ctx.rng, m_, k_):
+                        yield "game", dict(case=case, meta=meta)
     n = ctx.budget(30000, 6000000)
     for _ in range(n):
         case, meta = gen.gen_case(ctx.rng)
